@@ -27,7 +27,7 @@ MANIFEST = dict(
          "the guard table against the real console (restricted users of 12 privilege classes vs admin, every exercised data "
          "endpoint x namespace spelling): observed allow/deny must equal the model's verdict, and the property oracle classifies "
          "every request served outside the permitted namespaces.",
-    note="37 console data endpoints apply no namespace privilege (MCP server/toolspec, the v1 routes that re-use the OpenAPI "
+    note="35 console data endpoints apply no namespace privilege (MCP server/toolspec, the v1 routes that re-use the OpenAPI "
          "handlers, v1 config history/downloads, the v2 config download, the transfer export/import): too many call sites for a "
          "small repair; recorded in known_findings.json, any other unguarded endpoint is a VIOLATION. Endpoints whose request "
          "cannot name a namespace (MCP server by id, imports needing an archive) are classified statically only. How a handler "
@@ -514,7 +514,8 @@ def run(chk, replay=None):
                           dict(rp_obj, correspondence="Gen.EndpointGuards / Auth.Privilege.acts"), False)
         # ---- the property oracle ----
         named = meta["ns"] if meta["ns"] is not None else ("" if rc["omitted"] == "default" else None)
-        if named is not None and allowed and not permitted(meta["group"], named):
+        # (GuardIndex / GuardFilter handlers answer with a FILTERED result instead of a refusal: judged by the leak rule below)
+        if named is not None and allowed and not permitted(meta["group"], named) and g not in ("GuardIndex", "GuardFilter"):
             confirmed.add(ep)
             chk.classify("unguarded:%s:%s" % (rc["method"], rc["path"]),
                          "%s %s served a request naming namespace %r to a user whose privilege (%s) does not permit it"
@@ -548,7 +549,7 @@ def run(chk, replay=None):
         "privilege_groups": len(pcases), "records": len(rcases), "http_requests": len(reqs), "inconclusive_http": inconcl,
         "http_by_guard_outcome": {"%s|%s" % k: v for k, v in sorted(dist.items())},
         "endpoints_total": len(rows), "data_endpoints": sum(1 for p, m, h, g in rows if is_data(p)),
-        "guards": {g: sum(1 for r in rows if r[3] == g and is_data(r[0])) for g in ("GuardCheck", "GuardParam", "GuardFilter", "NoGuard")},
+        "guards": {g: sum(1 for r in rows if r[3] == g and is_data(r[0])) for g in ("GuardCheck", "GuardParam", "GuardFilter", "GuardIndex", "NoGuard")},
         "exercised_endpoints": len(RC), "model_impl_mismatches": mism,
     }
     chk.notes["unguarded_confirmed_dynamically"] = sorted("%s %s" % (m, p) for p, m in confirmed)
